@@ -16,10 +16,11 @@ EXTENDS Naturals, Sequences, FiniteSets
 \* L1 and L2 are two distinct types that PRINT the same name (declared in different scopes) - they never
 \* occur together in one scenario
 \* T7 is a type whose printed name is lower case ("scn.t7"), so that it can occur inside a (lower-cased) name
-Concrete == {"T1", "T2", "T3", "T4", "T5", "T6", "T7", "U1", "PE", "L1", "L2"}
+\* P1 is the pointer type *T1 (an unnamed type; it implements I1 through T1's value-receiver method)
+Concrete == {"T1", "T2", "T3", "T4", "T5", "T6", "T7", "U1", "P1", "PE", "L1", "L2"}
 \* I12 is an interface embedding I1 and I2 (implemented by T2 only): an interface implementing wider interfaces
 Ifaces   == {"I1", "I2", "E", "I12"}
-Impl     == {<<"T1", "I1">>, <<"T2", "I1">>, <<"T2", "I2">>, <<"T3", "I2">>, <<"PE", "E">>,
+Impl     == {<<"T1", "I1">>, <<"P1", "I1">>, <<"T2", "I1">>, <<"T2", "I2">>, <<"T3", "I2">>, <<"PE", "E">>,
              <<"T2", "I12">>, <<"I12", "I1">>, <<"I12", "I2">>}
 
 L(n, t, s) == [name |-> n, type |-> t, sub |-> s]
